@@ -31,7 +31,7 @@ func init() {
 		"C11": "case as C01 with max-applications on most queues; non-trivial = at least one first allocation of a not-yet-running application under a queue with a max-applications limit; distinct by sha256(config+ops)",
 	}
 	for _, p := range []string{"C01", "C02", "C03", "C04", "C05", "C06", "C09", "C10", "C11"} {
-		driver.Register(&driver.Spec{Prop: p, Run: detRunner, Quick: 1600, Thorough: 40000, Batch: 25, Rule: rules[p], Assumptions: legal})
+		driver.Register(&driver.Spec{Prop: p, Run: detRunner, Quick: 600, Thorough: 12000, Batch: 25, Rule: rules[p], Assumptions: legal})
 	}
 }
 
